@@ -35,10 +35,10 @@ func init() {
 		Rule: "engine 'race' (the worker is built with -race). One run = one logger (string, plain string, std with stdout/stderr redirected to scratch files, file, JSON, zap / logrus / hclog / slog / stdr through the logr adapter, quiet, noop, multiple / combined loggers of 1..4 members, asynchronous ring-buffered with ring sizes 1..1024) and a seeded sequence of 1..4 ROUNDS: in each round a seeded subset of 2..32 producer goroutines is released together (one close of a channel) and joined before the next round, each producer issuing a seeded mix of Log, LogError, SetLogSource, SetLoggerSource and Append with unique messages. " +
 			"Operations of one round are concurrent in the happens-before sense whatever the hardware does, so the race detector (vector clocks) reports an unsynchronised access pair independently of the actual interleaving; the asynchronous logger runs inside a synctest bubble (fake clock for the ring poller and the slow sink). " +
 			"oracles: no race report during the run; the sink(s) parsed back into messages equal the multiset sent (exactly once, intact, at most one message per line); every member of a composite received every message logged after it was appended; delivered + reported dropped = sent for the ring buffer. " +
-			"The run also contains the C12 cancel-store rounds (concurrent Register / Cancel / Len). non-trivial = at least one round with two or more producers; distinct = distinct script digest",
-		Real:        []string{"utils/logs (every constructor named above, composite loggers, writers, diode writer)", "third-party loggers behind the adapters (zap, logrus + lfshook, hclog, slog, stdr, zerolog + diode)", "utils/parallelisation cancel_functions.go (cancel store rounds)"},
+			"non-trivial = at least one round with two or more producers; distinct = distinct script digest",
+		Real:        []string{"utils/logs (every constructor named above, composite loggers, writers, diode writer)", "third-party loggers behind the adapters (zap, logrus + lfshook, hclog, slog, stdr, zerolog + diode)"},
 		Stub:        []string{"partial order of the producers: seeded rounds (the interleaving inside a round is the hardware's; only the race report and the content after the join are relied on)", "sinks: mutex-protected harness buffers, scratch files", "time for the asynchronous logger: testing/synctest fake clock"},
-		Assumptions: []string{"go1.26.8 -race; a race report is attributed to the run during which the race log grew; the race runtime reports a given pair of stacks once per process, the replay runs in a fresh process", "the cancel-store clause and lost-update style defects that do not constitute a data race depend on real interleavings: a replay re-executes the script up to 40 times"},
+		Assumptions: []string{"go1.26.8 -race; a race report is attributed to the run during which the race log grew; the race runtime reports a given pair of stacks once per process, the replay runs in a fresh process", "lost-update style defects that do not constitute a data race depend on real interleavings: a replay re-executes the script up to 40 times"},
 	})
 }
 
@@ -248,6 +248,29 @@ func c13NewLogger(kind int, scratch string, ch *Chooser) (*c13Logger, error) {
 	return nil, fmt.Errorf("unknown logger kind %d", kind)
 }
 
+func init() {
+	Register(&Prop{
+		ID:             "C12S",
+		Run:            runC12StoreProp,
+		Level:          "exploration",
+		ReplayAttempts: 40,
+		Rule:           "engine 'race': rounds of 2..16 goroutines released together, each issuing a seeded mix of RegisterCancelFunction / Cancel / Len on one cancel store; every function whose registration returned before a round started must be invoked by the Cancel calls of that round; no registration may be lost; no race report. non-trivial = every run; distinct = distinct script digest",
+		Real:           []string{"utils/parallelisation cancel_functions.go"},
+		Stub:           []string{"partial order of the callers: seeded rounds under the race detector"},
+		Assumptions:    []string{"lost-update defects that are not data races depend on the real interleaving inside a round: detection is probabilistic, a replay re-executes the script up to 40 times"},
+	})
+}
+
+func runC12StoreProp(rc *RunCtx) {
+	before := raceLogSize()
+	defer func() {
+		for _, v := range newRaceReports(before) {
+			rc.Res.Violate(v.Kind, v.Sig, v.Detail)
+		}
+	}()
+	runC12Store(rc)
+}
+
 const c13Kinds = 15 // 14 = asynchronous
 
 // raceLog returns the path of this process' race log (GORACE log_path=...), "" when unknown.
@@ -345,17 +368,12 @@ func newRaceReports(offset int64) []Violation {
 func runC13(rc *RunCtx) {
 	ch := rc.Ch
 	res := rc.Res
-	part := ch.Pick("part", 8, 2) // 0 loggers, 1 cancel store
 	before := raceLogSize()
 	defer func() {
 		for _, v := range newRaceReports(before) {
 			res.Violate(v.Kind, v.Sig, v.Detail)
 		}
 	}()
-	if part == 1 {
-		runC12Store(rc)
-		return
-	}
 	kind := ch.Intn("kind", c13Kinds)
 	if kind == 14 {
 		runC13Async(rc)
